@@ -6,7 +6,7 @@ ids = [json.loads(l)['id'] for l in open(os.path.join(here, 'properties.jsonl'))
 TB = "Go 1.24.7 toolchain, google.golang.org/protobuf (protogen, protodesc), hand-built descriptors validated by protodesc stand in for protoc"
 claimed = {
  "C16": dict(
-   text="Bounded-exhaustive exploration of the descriptor-shape space: every reference graph over <=2 messages (and over 3 messages up to an edge bound) with singular/repeated/map/oneof edges incl. self and mutual recursion, nesting ladders to depth 32 and degenerate files, times 7 plugin/parameter configurations, each executed on the real plugin binaries built from the working tree under a timeout and an address-space limit. Right level because termination/crash freedom is a per-input safety property and the defects live in recursion over the message graph, which small graphs exhaust.",
+   text="Bounded-exhaustive exploration of the descriptor-shape space: every reference graph over <=2 messages (and over 3 messages up to an edge bound) with singular/repeated/map/oneof/flatten/flatten-with-prefix edges incl. self and mutual recursion, nesting ladders to depth 32 and degenerate files, times 7 plugin/parameter configurations, each executed on the real plugin binaries built from the working tree under a timeout and an address-space limit. Right level because termination/crash freedom is a per-input safety property and the defects live in recursion over the message graph, which small graphs exhaust.",
    note="Assumes: " + TB + "; termination judged by a 20 s/60 s guard against ~30 ms typical runs; exit status 1 with protogen's '<plugin>: message' on stderr counts as an error answer.",
    tech="bounded-exhaustive enumeration of descriptor graphs executed on the real plugin binaries", ref="DESIGN.md section 8 C16"),
  "C13": dict(
@@ -19,15 +19,15 @@ claimed = {
    tech="exhaustive enumeration of bounded value spaces against a reference model (M-json), executed on generated code", ref="DESIGN.md section 8 C04"),
  "C05": dict(
    text="Every enumerated value of every echo RPC's message type is sent through the real generated server (in-process wire transport: bytes serialised and re-parsed) in both directions and the JSON on the wire is compared as a value with M-json, the executable model of the documented mapping applied at every depth. Exhaustive over the bounded value space and over the context family (top-level, child, list element, map value, oneof variant).",
-   note="Trusted: M-json model written from the annotation documentation; JSON compared as values (numbers by exact digits). Only body-carrying routes without URL-bound fields are used to carry the messages.",
+   note="Every value is sent under six Content-Type spellings (application/json, with charset, absent, text/plain, Application/JSON, vendor +json); the alternates are judged whenever the server gives a JSON answer / dispatches. Trusted: M-json model written from the annotation documentation; JSON compared as values (numbers by exact digits, sign of zero ignored). Only body-carrying routes without URL-bound fields are used to carry the messages.",
    tech="exhaustive enumeration of bounded value spaces through the generated server, compared with a reference model", ref="DESIGN.md section 8 C05"),
  "C01": dict(
    text="For every RPC of every service unit and both transports (JSON, binary protobuf) every enumerated request value (URL-bound fields over their boundary domains incl. reserved URL characters and integer extremes) and every enumerated response value is sent generated Go client -> byte-level in-process wire -> generated Go server -> recording handler; oracle = the handler of the same RPC saw an equal request and the caller got an equal response. Exhaustive over the bounded schema x value x content-type space.",
-   note="Trusted: wire transport built from net/http's own Request.Write/ReadRequest/Response.Write/ReadResponse; equality up to documented JSON-annotation losses; -0 and +0 are identified; required query parameters and path variables only take non-empty values; application/octet-stream is not offered by the client API and is not exercised.",
+   note="Every case runs with the content type as client default and as per-call option over a client whose default is the other one. Trusted: wire transport built from net/http's own Request.Write/ReadRequest/Response.Write/ReadResponse; equality up to documented JSON-annotation losses; -0 and +0 are identified; required query parameters and path variables only take non-empty values; application/octet-stream is not offered by the client API and is not exercised.",
    tech="exhaustive enumeration of schemas x values x transports, executed client->wire->server, compared with identity", ref="DESIGN.md section 8 C01"),
  "C12": dict(
-   text="Exhaustive enumeration of the documented rule set (29 offending constructs) x 4 placements x 2 surroundings through go-http and go-client, checking refusal, offender naming and absence of files on the real plugin binaries; and the converse over the whole valid universe x 5 plugins. The rule list is finite and closed, so enumeration of rule x placement decides the property within the stated placements.",
-   note="Assumes " + TB + ". An error message 'names the offender' if it contains the message, field, oneof or enum name. Rules that only TS/OpenAPI plugins could check are outside the statement.",
+   text="Exhaustive enumeration of the documented rule set (one offending construct per rule, per annotation value and per field position - plain, repeated, map, oneof member -, about 90 constructs) x 4 placements x 2 surroundings through go-http and go-client, checking refusal, offender naming and absence of files on the real plugin binaries; and the converse over the whole valid universe x 5 plugins. The rule list is finite and closed, so enumeration of rule x placement decides the property within the stated placements.",
+   note="Assumes " + TB + ". The valid universe includes F-rules and F-pair (two codec features in one message); the Go plugins' refusal of such pairs is the open finding C12-one-codec-feature-per-message. An error message 'names the offender' if it contains the message, field, oneof or enum name. Rules that only TS/OpenAPI plugins could check are outside the statement.",
    tech="exhaustive enumeration of rule x placement x surrounding, executed on the real plugins", ref="DESIGN.md section 8 C12"),
  "C14": dict(
    text="For every spec of the universe and every generate-subset both Go plugins are run on the same request and every same-named file is compared byte for byte (modulo the generator name in the header); codec files emitted by only one plugin are reported. The behavioural half (client-only package codes like the server package) is the build=C vs build=H enumeration of C04. Exhaustive over the bounded schema universe x plugin pairs.",
@@ -38,8 +38,8 @@ claimed = {
    note="Assumes " + TB + ". Nondeterminism inside third-party libraries (yaml/json encoders) is observed only through repeated identical runs.",
    tech="explicit enumeration of request shapes and of map-iteration orders (owned via build overlay), byte comparison", ref="DESIGN.md section 8 C15"),
  "C09": dict(
-   text="Model-based exhaustive exploration of the header gate of the generated Go server: for every RPC with header declarations, every must-accept exemplar of the header model M-hdr, and every non-empty subset of the required headers made bad in every way (absent, empty, each must-reject exemplar) x body valid/malformed, sent as raw requests through the byte-level wire; the model transition (400 + exact violation set + handler not run + no body read before the verdict / not rejected) is compared on every trace.",
-   note="Trusted: M-hdr exemplar sets (values valid per the published OpenAPI type/format vs. not well-formed; values in neither set are not judged). Go server only; subsets are enumerated over at most 4 headers.",
+   text="Model-based exhaustive exploration of the header gate of the generated Go server and, through the node bridge, of the generated TypeScript server: for every RPC with header declarations, every must-accept exemplar of the header model M-hdr, and every non-empty subset of the required headers made bad in every way (absent, empty, each must-reject exemplar) x body valid/malformed, sent as raw requests through the byte-level wire; the model transition (400 + exact violation set + handler not run + no body read before the verdict / not rejected) is compared on every trace.",
+   note="Trusted: M-hdr exemplar sets (values valid per the published OpenAPI type/format vs. not well-formed; values in neither set are not judged). Subsets are enumerated over at most 4 headers. TS server: same cases as fetch Request objects; values the Fetch API cannot carry unchanged go to the Go server only; an empty value of a plain string header is not judged on the TS server; body-read counting is Go only.",
    tech="explicit enumeration of header-state subsets against a reference model, replayed on the generated server", ref="DESIGN.md section 8 C09"),
  "C02": dict(
    text="Explicit enumeration of the URL-binding branches of the request-pipeline model (M-pipe Path/Query/Body stages): every RPC with URL-bound fields x every URL-bound slot x every boundary value / malformed spelling / missing / repeated occurrence x every body shape, as raw requests against the generated Go server; each trace is compared with the model (dispatch with the URL's value, or 400 naming the field without dispatch).",
@@ -47,11 +47,11 @@ claimed = {
    tech="explicit enumeration of M-pipe URL-binding paths, every path replayed on the generated server", ref="DESIGN.md section 8 C02"),
  "C10": dict(
    text="Explicit-state exploration of the error half of the request-pipeline model: error source (10 kinds incl. every single-deviation rule violation) x request content type (3) x error-hook behaviour (none + all 16 subsets of {header, status, message, body}); every model path is replayed on the generated Go server and the produced response is fed to the generated Go client; status, encoding, decoded body, violation field set, hook effects and the client's error value are compared with the model M-err.",
-   note="Trusted: M-pipe/M-err (DESIGN appendix A), protovalidate stand-in for rule semantics. TS client side is covered by C08's bridge.",
+   note="Trusted: M-pipe/M-err (DESIGN appendix A), protovalidate stand-in for rule semantics. Every Go client case runs twice (content type as client default, and as per-call option over a client with the other default). TS side through the node bridge: every un-hooked JSON error response is handed to the generated TS client (ValidationError with the same violations / ApiError with the same status and body) and the generated TS server is given failing handlers (Error -> 500 with message, ValidationError -> 400 with violations, onError hook -> its status, headers and body).",
    tech="explicit-state enumeration of all error paths of the pipeline model, each replayed on generated server and client", ref="DESIGN.md section 8 C10"),
  "C11": dict(
    text="Bounded-exhaustive input exploration: every string up to length L over a 17-symbol JSON token alphabet, every byte string up to length 2/3 as protobuf, and every single mutation of valid bodies, against every generated decoder family of the Go server (millions of requests per run through the byte-level wire), with a reference decoder (protojson / proto.Unmarshal / JSON well-formedness + member accounting) as oracle; plus the full product status x content-type x body class against the generated Go client.",
-   note="Bodies beyond length L or two mutations away are not covered; an empty body may be dispatched as the default message; duplicate keys are not judged; hangs are excluded by construction (no blocking calls; every execution is bounded by input length).",
+   note="Small strings and every mutation are also sent with chunked framing (unknown Content-Length) under JSON, x-protobuf and octet-stream. Bodies beyond length L or two mutations away are not covered; an empty body may be dispatched as the default message; duplicate keys are not judged; hangs are excluded by construction (no blocking calls; every execution is bounded by input length).",
    tech="bounded-exhaustive enumeration of input strings and mutations against reference decoders", ref="DESIGN.md section 8 C11"),
  "C18": dict(
    text="Every service spec of the universe (incl. same-named nested types, recursion, multi-file, YAML look-alike strings) x 4 format spellings is generated by the real plugin; each document is decoded and checked exhaustively against the structural rules of OAS 3.1 (refs, path variables vs parameters, uniqueness, reachability closure computed independently from the descriptors, one document per service), every component and parameter schema against the 2020-12 metaschema, and YAML vs JSON renderings as JSON values. Exhaustive over the bounded schema x format space.",
